@@ -184,6 +184,41 @@ def main():
                 res["failure"] = f
                 break
         res["distinct"] = len(seen)
+        # long records (the implementations may switch strategy with the length): table without offsets == table with offsets == the other implementation,
+        # every point is used exactly once (2 * sum(count) == L - 1), amplitude / mean are those of the points the offsets name
+        if res["failure"] is None:
+            import numpy as np
+            rs = np.random.RandomState(seed + 5)
+            for L in {"quick": (70001, 1000003), "thorough": (70001, 1000003, 1048577, 4200001), "replay": (70001, 1000003, 1048577)}[mode]:
+                steps = rs.randint(1, 1000, size=L) / 8.0
+                x = np.cumsum(steps * np.where(np.arange(L) % 2, -1.0, 1.0))
+                tabs = {}
+                for name, fn in impls:
+                    if name.startswith("py_") and L > 100000:
+                        continue                      # pure Python: too slow for the long records; covered through the short ones and the proof
+                    res["evaluations"] += 1
+                    rf0 = np.asarray(fn(x, False))
+                    rf1, os1 = fn(x, True)
+                    rf1, os1 = np.asarray(rf1), np.asarray(os1)
+                    prob = None
+                    if rf0.shape != rf1.shape or not np.array_equal(rf0, rf1):
+                        prob = "table without offsets (%d rows) differs from the table with offsets (%d rows)" % (rf0.shape[0], rf1.shape[0])
+                    elif abs(2 * rf0[:, 2].sum() - (L - 1)) > 1e-6:
+                        prob = "2 * sum(count) = %g, not L - 1 = %d" % (2 * rf0[:, 2].sum(), L - 1)
+                    else:
+                        a_, b_ = x[os1[:, 0].astype(int)], x[os1[:, 1].astype(int)]
+                        if not (np.allclose(abs(a_ - b_) / 2, rf1[:, 0]) and np.allclose((a_ + b_) / 2, rf1[:, 1])):
+                            prob = "amplitude / mean are not those of the points the offsets name"
+                    if prob:
+                        res["failure"] = dict(what="long record (L = %d, alternating random walk, seed %d): %s: %s" % (L, seed + 5, name, prob), impl=name, L=L)
+                        break
+                    tabs[name] = rf0
+                if res["failure"] is None and len(tabs) == 2:
+                    t1, t2 = list(tabs.values())
+                    if t1.shape != t2.shape or not np.allclose(t1, t2):
+                        res["failure"] = dict(what="long record (L = %d): the two implementations give different tables" % L, L=L)
+                if res["failure"]:
+                    break
     finally:
         shutil.rmtree(scratch, ignore_errors=True)
     print("RESULT " + json.dumps(res))
